@@ -177,6 +177,8 @@ func rewriteFile(p *packages.Package, f *ast.File, src []byte) ([]byte, bool, er
 			keep += "var _ " + name + ".Mutex\n"
 		case "time":
 			keep += "var _ " + name + ".Duration\n"
+		case "net":
+			keep += "var _ " + name + ".Listener\n"
 		}
 	}
 	imp := "\n\nimport simrt \"verif/simrt\"\n"
@@ -389,6 +391,11 @@ func (r *rewriter) rewriteCall(call *ast.CallExpr) (string, bool) {
 			if shim, ok := randShims[sel.Sel.Name]; ok {
 				r.note("rand-shim")
 				return "simrt." + shim + "(" + r.args(call) + ")", true
+			}
+		case "net":
+			if sel.Sel.Name == "Listen" {
+				r.note("net-shim")
+				return "simrt.NetListen(" + r.args(call) + ")", true
 			}
 		case "time":
 			if shim, ok := timeShims[sel.Sel.Name]; ok {
